@@ -351,14 +351,32 @@ static string handle(const string &payload) {
 // ---------------------------------------------------------------- SelectServer-level timer registration
 // payload: "S op;op;..."  op: m<rep>,<ms> (millisecond overload) | i<rep>,<us> (TimeInterval overload) |
 //          a<us> (advance the virtual clock) | x (one RunOnce()); run on both back-ends.
+// controlled time for the REAL ola::Clock (payload R): clock_gettime is interposed; CLOCK_MONOTONIC gives the
+// controlled time, every other monotonic clock id a time that lags behind it (rounded down to a 4 ms tick)
+static bool g_fake_time = false;
+static uint64_t g_fake_us = 0;
+extern "C" int __real_clock_gettime(clockid_t id, struct timespec *ts);
+extern "C" int __wrap_clock_gettime(clockid_t id, struct timespec *ts) {
+  if (g_fake_time && id != CLOCK_REALTIME && id != CLOCK_PROCESS_CPUTIME_ID && id != CLOCK_THREAD_CPUTIME_ID) {
+    uint64_t t = g_fake_us;
+    if (id != CLOCK_MONOTONIC) t = (t / 4000) * 4000;
+    ts->tv_sec = t / 1000000ULL; ts->tv_nsec = (t % 1000000ULL) * 1000ULL;
+    return 0;
+  }
+  return __real_clock_gettime(id, ts);
+}
+
 namespace ss {
 static VClock *g_clock;
+static uint64_t now_us() { return g_fake_time ? g_fake_us : g_clock->Now(); }
+static void advance_us(uint64_t d) { if (g_fake_time) g_fake_us += d; else g_clock->Advance(d); }
+static void on_writable_noop() {}
 static vector<string> *g_log;
 static bool g_early;
 static std::map<int, uint64_t> g_due;        // serial -> earliest legal firing time
 static std::map<int, uint64_t> g_interval;
 static void on_fire(int ser) {
-  uint64_t now = g_clock->Now();
+  uint64_t now = now_us();
   if (now < g_due[ser]) g_early = true;      // clock_now < (registration or last firing) + interval
   g_due[ser] = now + g_interval[ser];
   g_log->push_back("F" + vh::str(ser) + "@" + vh::str(now));
@@ -370,9 +388,10 @@ static void fired_one(int ser) { on_fire(ser); }
 static ola::io::SelectServer *g_server;
 struct Deferred;
 static vector<Deferred*> g_deferred_done;
+static vector<ola::io::LoopbackDescriptor*> g_writers_done;
 static void register_timer(bool rep, bool ms_overload, unsigned long long v, int id) {
   uint64_t us = ms_overload ? static_cast<uint64_t>(static_cast<unsigned int>(v)) * 1000ULL : v;
-  g_interval[id] = us; g_due[id] = g_clock->Now() + us;
+  g_interval[id] = us; g_due[id] = now_us() + us;
   if (ms_overload) {
     if (rep) g_server->RegisterRepeatingTimeout(static_cast<unsigned int>(v), ola::NewCallback(&fired_rep, id));
     else g_server->RegisterSingleTimeout(static_cast<unsigned int>(v), ola::NewSingleCallback(&fired_one, id));
@@ -398,20 +417,23 @@ static void desc_cb(Deferred *d) {
 // called by the epoll_wait / select interposers when nothing is ready: the poller sleeps on the virtual clock
 static void vsleep(long long us) {
   if (us < 0) { if (g_log) g_log->push_back("!sleep-forever"); return; }
-  g_clock->Advance(static_cast<uint64_t>(us));
+  advance_us(static_cast<uint64_t>(us));
 }
 
 static string run_backend(const string &payload, bool force_select, bool *early) {
   VClock clock;
   g_clock = &clock;
+  bool real_clock = payload[0] == 'R';     // the server creates and uses its own ola::Clock
+  g_fake_us = 0; g_fake_time = real_clock;
   g_early = false; g_due.clear(); g_interval.clear();
   string out;
   {
     ola::io::SelectServer::Options opt;
     opt.force_select = force_select;
-    opt.clock = &clock;
+    opt.clock = real_clock ? NULL : &clock;
     ola::io::SelectServer server(opt);
     g_server = &server;
+    vector<ola::io::LoopbackDescriptor*> writers;
     vector<Deferred*> deferred;
     int ser = 0;
     vector<string> ops = vh::split(payload.substr(2), ';');
@@ -447,7 +469,18 @@ static string run_backend(const string &payload, bool force_select, bool *early)
           }
           break;
         }
-        case 'a': clock.Advance(vh::num(rest)); break;
+        case 'a': advance_us(vh::num(rest)); break;
+        case 'W': {     // <n> descriptors that stay ready (write ends of empty pipes): the loop is busy from now on
+          int n = static_cast<int>(vh::num(rest));
+          for (int k = 0; k < n; k++) {
+            ola::io::LoopbackDescriptor *w = new ola::io::LoopbackDescriptor();
+            w->Init();
+            w->SetOnWritable(ola::NewCallback(&on_writable_noop));
+            server.AddWriteDescriptor(w);
+            writers.push_back(w);
+          }
+          break;
+        }
         case 'x': case 'y': {
           c16p::p_vsleep = &vsleep;
           if (o[0] == 'x') server.RunOnce();
@@ -463,8 +496,13 @@ static string run_backend(const string &payload, bool force_select, bool *early)
     for (size_t k = 0; k < deferred.size(); k++) {
       if (deferred[k]->desc) { server.RemoveReadDescriptor(deferred[k]->desc); }
     }
+    for (size_t k = 0; k < writers.size(); k++) server.RemoveWriteDescriptor(writers[k]);
+    g_writers_done = writers;
     g_deferred_done = deferred;
   }
+  for (size_t k = 0; k < g_writers_done.size(); k++) delete g_writers_done[k];
+  g_writers_done.clear();
+  g_fake_time = false;
   for (size_t k = 0; k < g_deferred_done.size(); k++) { delete g_deferred_done[k]->desc; delete g_deferred_done[k]; }
   g_deferred_done.clear();
   g_server = NULL;
@@ -490,7 +528,7 @@ static string consts_s() {
 static string dispatch(const string &payload) {
   if (payload == "K") return consts_s();
   if (payload.size() >= 2 && payload[0] == 'T') return ta::handle(payload);
-  if (payload.size() >= 2 && payload[0] == 'S') return ss::handle(payload);
+  if (payload.size() >= 2 && (payload[0] == 'S' || payload[0] == 'R')) return ss::handle(payload);
 #ifdef HAVE_POLLER
   if (payload.size() >= 1 && payload[0] == 'P') return c16p::handle(payload);
 #endif
